@@ -31,7 +31,7 @@ def plan(tier, seed):
     specs += [{"seed": seed, "chunk": 900000 + i, "n": 0, "budget": 400000, "long": i} for i in range(5 if tier == "quick" else 15)]
     # sources that are ordinary except for one dimension pushed past 2^8 / 2^16 (variables, definitions, parameters, labels, nesting,
     # call depth, identifier length, statements per line, files, include depth, macro slots / arguments / uses)
-    specs += [{"seed": seed, "chunk": 950000 + i, "n": 0, "budget": 400000, "scale": i} for i in range(16 if tier == "quick" else 64)]
+    specs += [{"seed": seed, "chunk": 950000 + i, "n": 0, "budget": 400000, "scale": i} for i in range(32 if tier == "quick" else 80)]
     return specs
 
 
@@ -146,7 +146,7 @@ def prepare(spec):
         text, kind = srcs[spec["long"] % len(srcs)]
         return [build_item({"main": text}, "main", spec["budget"], "long-distance-jumps")]
     if "scale" in spec:
-        srcs = programs.scale_sources(r)
+        srcs = programs.scale_sources(r, small=spec["scale"] < 16, large=16 <= spec["scale"] < 32)   # smallest, largest, then random sizes
         files, main, kind = srcs[spec["scale"] % len(srcs)]
         return [build_item(files, main, spec["budget"], kind)]
     for k in range(spec["n"]):
